@@ -757,6 +757,33 @@ def rule_category_sets(repo, col):
                           'ordered sequences (`%s`): ids annotated with the '
                           'same categories in another order are refused'
                           % unparse(n, 70))
+    if k == 0:
+        # a one-sided test (difference / subset) in place of the equality
+        for n in body_walk(fn):
+            if not (isinstance(n, ast.If) and any(
+                    isinstance(b_, ast.Raise) for b_ in n.body) and
+                    'categor' in unparse(n, 2000).lower()):
+                continue
+            t = n.test
+            if isinstance(t, ast.Name) and t.id in ass:
+                vals = [v for v, _ in ass[t.id] if v is not None]
+                t = vals[0] if len(vals) == 1 else t
+            one_sided = (isinstance(t, ast.Call) and isinstance(
+                t.func, ast.Attribute) and t.func.attr in (
+                'difference', 'issubset', 'issuperset')) or (
+                isinstance(t, ast.BinOp) and isinstance(t.op, ast.Sub)) or (
+                isinstance(t, ast.Compare) and isinstance(
+                    t.ops[0], (ast.LtE, ast.GtE, ast.Lt, ast.Gt))) or (
+                isinstance(t, ast.UnaryOp) and isinstance(
+                    t.operand, ast.Call) and isinstance(
+                    t.operand.func, ast.Attribute) and
+                t.operand.func.attr in ('issubset', 'issuperset'))
+            if one_sided:
+                k += 1
+                col.bad(rule, TABLE, 'Table.to_hdf5', 'category-compare', n,
+                        'the categories of an id are only tested one way '
+                        '(`%s`): an id carrying a category the first id '
+                        'lacks is written without it' % unparse(t, 60))
     col.soft(k >= 1, rule, TABLE, 'Table.to_hdf5', 'category-compare:'
              'instances', fn, '%d comparisons' % k,
              'category comparison not found')
